@@ -359,6 +359,12 @@ def modelledSites : List (String × String × Nat × String) := [
   ("stone/frontend/ir_generator.py", "IRGenerator._find_dependencies_recursive", 3, "for"),
   ("stone/frontend/ir_generator.py", "IRGenerator._find_dependencies_recursive", 4, "for"),
   ("stone/frontend/ir_generator.py", "IRGenerator._find_dependencies_recursive", 5, "for"),
+  -- (the same search after the repairs of branch fix/ir: the doc walk is one method, a route that a doc refers to is
+  --  walked by `_find_route_dependencies`, the starting docs are read by `add_doc_refs`; still only the visited set counts)
+  ("stone/frontend/ir_generator.py", "IRGenerator._filter_namespaces_by_route_whitelist.add_doc_refs", 0, "extend"),
+  ("stone/frontend/ir_generator.py", "IRGenerator._find_doc_dependencies", 0, "for"),
+  ("stone/frontend/ir_generator.py", "IRGenerator._find_doc_dependencies", 1, "for"),
+  ("stone/frontend/ir_generator.py", "IRGenerator._find_route_dependencies", 0, "for"),
   ("stone/frontend/ir_generator.py", "parse_data_types_from_doc_ref", 0, "for"),
   ("stone/frontend/ir_generator.py", "parse_data_types_from_doc_ref", 1, "for"),
   ("stone/frontend/ir_generator.py", "parse_data_types_from_doc_ref", 2, "for"),
